@@ -8,16 +8,7 @@
    allowed T fac agree    = Model/C10Spec.v: the declarative specification written from the tables only.
    allowed_full           = allowed pinned_tables true true = the property of properties.jsonl.
 
-   FULL-STRENGTH STATEMENT (what the property asks):
-       forall sl, snd (validate_cur sl) = Ok <-> allowed_full sl.
-   It is FALSE of the current code in the => direction, for two independent reasons, each proved below as a
-   `_refuted` theorem with a witness that the harness replays on the real code on every run:
-     (1) a declared site is never compared with the site of the connected nodes (network_service.py:261-268),
-     (2) facility nodes are never looked at (topology.py:629 iterates self.nodes, which hides them).
-   Proved instead: the <= direction in full (no valid slice is rejected); the => direction under the two
-   hypotheses that exclude exactly those signatures (`_partial`); the exact characterisation of what the
-   current code accepts; and the full equivalence for the model with both repairs switched on
-   (`_repaired`, the code of proposed_fixes/C10-1.patch + C10-2.patch). *)
+   Both directions hold since proposed_fixes/C10-1..3 landed (flags cur_* = true). *)
 From Coq Require Import List ZArith String Bool NArith Permutation.
 From FIM Require Import Base.C10Types Gen.Constraints Model.Validate10 Model.C10Pinned Model.C10Spec
   Proofs.Validate10Tables Proofs.Validate10Main Proofs.Validate10Extra.
@@ -45,6 +36,11 @@ Proof. exact pinned_tables_total. Qed.
 Print Assumptions C10_tables_total.
 
 (* ---- accept / reject ---- *)
+(* THE FULL-STRENGTH STATEMENT *)
+Theorem C10_validate_iff : forall sl, snd (validate_cur sl) = Ok <-> allowed_full sl.
+Proof. exact validate_cur_iff. Qed.
+Print Assumptions C10_validate_iff.
+
 (* no valid slice is rejected (full strength) *)
 Theorem C10_validate_complete : forall sl, allowed_full sl -> snd (validate_cur sl) = Ok.
 Proof. exact validate_cur_complete. Qed.
@@ -62,16 +58,6 @@ Theorem C10_validate_cur_exact : forall sl,
   snd (validate_cur sl) = Ok <-> allowed pinned_tables cur_checks_facilities cur_enforces_declared_site sl.
 Proof. exact validate_cur_exact. Qed.
 Print Assumptions C10_validate_cur_exact.
-
-Theorem C10_validate_iff_refuted_declared_site :
-  snd (validate_cur witness_declared_site) = Ok /\ ~ allowed_full witness_declared_site.
-Proof. exact validate_iff_refuted_declared_site. Qed.
-Print Assumptions C10_validate_iff_refuted_declared_site.
-
-Theorem C10_validate_iff_refuted_facility :
-  snd (validate_cur witness_facility) = Ok /\ ~ allowed_full witness_facility.
-Proof. exact validate_iff_refuted_facility. Qed.
-Print Assumptions C10_validate_iff_refuted_facility.
 
 (* the full equivalence, for the validation with both repairs (flags true true) *)
 Theorem C10_validate_iff_repaired : forall sl, snd (validate pinned_tables true true sl) = Ok <-> allowed_full sl.
@@ -139,11 +125,11 @@ Theorem C10_guardrail_only_unsupported : forall st it, connect_ctor gen_tables s
 Proof. exact guardrail_only_unsupported_pinned. Qed.
 Print Assumptions C10_guardrail_only_unsupported.
 
-(* FULL statement "connecting refuses at once" is false of NetworkService.connect_interface(): *)
-Theorem C10_connect_interface_unguarded_refuted : exists st it,
-  connect_ctor gen_tables st it <> Ok /\ connect_method gen_tables cur_connect_interface_guarded st it = Ok.
-Proof. exact connect_interface_unguarded_refuted. Qed.
-Print Assumptions C10_connect_interface_unguarded_refuted.
+(* connect_interface() applies the same guardrail as the constructor *)
+Theorem C10_connect_interface_guarded : forall st it,
+  connect_method gen_tables cur_connect_interface_guarded st it = connect_ctor gen_tables st it.
+Proof. exact connect_interface_guarded. Qed.
+Print Assumptions C10_connect_interface_guarded.
 
 (* ---- non-vacuity ---- *)
 Example C10_nonvacuous_valid :      (* a 3-node, 6-service slice satisfies the full specification ... *)
